@@ -116,6 +116,12 @@ static void check_local(const char *sub, int mode, const unsigned char *s, size_
                          "is_%s_local refused with the positive code %d; eav_is_email(L@ok.com, tld_check on, all classes allowed) returned %d errcode=%d, reference %s",
                          mode_name(mode), rc0 > 0 ? rc0 : rc1, r3, EAVALL[mode].errcode, exp2 == R_ACC ? "ACCEPT" : "REJECT");
     }
+    /* context 3: the same local part in front of an address literal (the wrappers look for '@' and '[' themselves) */
+    if (n + 16 < sizeof buf) { memcpy(buf + n, "@[192.0.2.1]", 13);
+        int r4 = eav_is_email(&EAV[mode], (const char *)buf, n + 12); MC_ADD(C_EVAL, 1);
+        if (exp2 != R_ANY && (r4 == 1) != (exp2 == R_ACC))
+            mc_violation(sub, why_of(mode, s, n, exp2, -EAV[mode].errcode, "email-literal"), "", cfg, s, n, "eav_is_email(L@[192.0.2.1]) mode %s: reference %s, library returned %d errcode=%d", mode_name(mode), exp2 == R_ACC ? "ACCEPT" : "REJECT", r4, EAV[mode].errcode);
+        memcpy(buf + n, "@ok.com", 8); }
     if (rc0 != rc1)
         mc_violation(sub, "depends-on-byte-after-end", "", cfg, s, n, "is_%s_local depends on the byte after the local part: rc=%d with NUL, rc=%d with '@'", mode_name(mode), rc0, rc1);
     /* more contexts: the range [start,end) sits in the middle of a longer buffer - whatever follows `end' must not matter
@@ -199,7 +205,7 @@ static void l1deep_shard(long shard, void *arg) { (void)arg; mc_enum_t e = L1E; 
  * HT for the ASCII modes), NUL-terminated context.  A scanner that carries one hidden bit from one quoted word into a later one needs two quoted
  * words with white space inside, i.e. nine or ten tokens, before its decision differs. */
 #ifdef C03
-static const mc_tok_t SIGS[] = { MC_TOK("a"), MC_TOK("\""), MC_TOK("\\"), MC_TOK("."), MC_TOK(" "), MC_TOK("\xd0\x96") };
+static const mc_tok_t SIGS[] = { MC_TOK("a"), MC_TOK("\""), MC_TOK("\\"), MC_TOK("."), MC_TOK(" "), MC_TOK("\xd0\x96"), MC_TOK("#") };     /* '#': seventh class, used when the RFC 20 option is in the reference */
 #else
 static const mc_tok_t SIGS[] = { MC_TOK("a"), MC_TOK("\""), MC_TOK("\\"), MC_TOK("."), MC_TOK(" "), MC_TOK("\t") };
 #endif
@@ -515,7 +521,7 @@ int main(int argc, char **argv) {
 #endif
     setup_objects();
     if (mc_replay) return do_replay();
-    int core = 0; for (int i = 1; i < argc; i++) if (!strcmp(argv[i], "--core")) core = 1;   /* C17's steps on the option builds: automaton product and token strings only */
+    int core = 0, with_scalars = 0; for (int i = 1; i < argc; i++) { if (!strcmp(argv[i], "--core")) core = 1; if (!strcmp(argv[i], "--scalars")) with_scalars = 1; }   /* C17's steps on the option builds: automaton product and token strings only */
 
     /* reference automata: reachable states, classes, characterisation set */
     long l2shards = 0; int states = 0, classes = 0, maxw = 0;
@@ -543,8 +549,9 @@ int main(int argc, char **argv) {
     mc_parallel("U1+U2: all 1- and 2-byte sequences x 5 contexts", 255, u12_shard, NULL);
     mc_parallel("U3: all 3-byte sequences x 5 contexts", 255 * 255, u3_shard, NULL);
     mc_parallel("U4: lead x boundary continuation bytes x 5 contexts", 255, u4_shard, NULL);
-    mc_parallel("every non-ASCII scalar, single and doubled, in 34 surroundings (a.X.b among them)", 0x110000 / 0x1000, scalar_shard, NULL);
     }
+    if (!core || with_scalars)
+    mc_parallel("every non-ASCII scalar, single and doubled, in 34 surroundings (a.X.b among them)", 0x110000 / 0x1000, scalar_shard, NULL);
 #endif
     mc_parallel("align: atom / quoted strings of 1..48 characters, one deviating byte at every position, at each of 16 start alignments", 48, align_shard, NULL);
     if (!core) { huge_lengths(); size_t mx = 0; for (int i = 0; i < HUGE_N; i++) if (HUGE_L[i] > mx) mx = HUGE_L[i];
@@ -557,7 +564,7 @@ int main(int argc, char **argv) {
         char nm[64]; snprintf(nm, sizeof nm, "L1:all strings of <= %d tokens over %d classes", n1, NSIGC);
         mc_parallel(nm, mc_enum_shards(&L1E), l1_shard, NULL);
     }
-    { memset(&L1S, 0, sizeof L1S); L1S.A = SIGS; L1S.nA = 6; L1S.N = mc_thorough ? 12 : 10; L1S.k = 3; L1S.fn = l1small_cb;
+    { memset(&L1S, 0, sizeof L1S); L1S.A = SIGS; L1S.nA = (REF_OPTS & RO_RFC20) ? 7 : 6; L1S.N = (REF_OPTS & RO_RFC20) ? (mc_thorough ? 11 : 9) : (mc_thorough ? 12 : 10); L1S.k = 3; L1S.fn = l1small_cb;
       char nm[96]; snprintf(nm, sizeof nm, "L1small: all strings of <= %d tokens over the six structure classes, NUL-terminated context", L1S.N);
       mc_parallel(nm, mc_enum_shards(&L1S), l1small_shard, NULL); }
     if (mc_thorough) {
